@@ -79,7 +79,7 @@ static int sbx_nacl_e(unsigned char *c, unsigned char *t, const unsigned char *m
   r = crypto_secretbox(pc, pm, ml + 32, n, kc->k); for (i = 0; i < 16; i++) if (pc[i]) z = 0; memcpy(t, pc + 16, 16); memcpy(c, pc + 32, ml); free(pm); free(pc); return r ? r : (z ? 0 : -78); }
 static int sbx_nacl_d(unsigned char *m, const unsigned char *c, ull cl, const unsigned char *t, const unsigned char *ad, ull al, const unsigned char *n, const keyctx *kc)
 { unsigned char *pc = calloc(cl + 32, 1), *pm = malloc(cl + 32); int r, i, z = 1; UNUSED_AD; memcpy(pc + 16, t, 16); memcpy(pc + 32, c, cl); memset(pm, 0xEE, cl + 32);
-  r = crypto_secretbox_open(pm, pc, cl + 32, n, kc->k); if (r == 0) { for (i = 0; i < 32; i++) if (pm[i]) z = 0; memcpy(m, pm + 32, cl); } free(pm); free(pc); return r ? r : (z ? 0 : -78); }
+  r = crypto_secretbox_open(pm, pc, cl + 32, n, kc->k); if (r == 0) { for (i = 0; i < 32; i++) if (pm[i]) z = 0; } if (m) memcpy(m, pm + 32, cl);   /* also after a rejection: what the library left in its output buffer is part of the observation */ free(pm); free(pc); return r ? r : (z ? 0 : -78); }
 static int sbc_e(unsigned char *o, ull *ol, const unsigned char *m, ull ml, const unsigned char *ad, ull al, const unsigned char *n, const keyctx *kc) { UNUSED_AD; if (ol) *ol = ml + 16; return crypto_secretbox_xchacha20poly1305_easy(o, m, ml, n, kc->k); }
 static int sbc_d(unsigned char *m, ull *ml, const unsigned char *in, ull il, const unsigned char *ad, ull al, const unsigned char *n, const keyctx *kc) { int r = crypto_secretbox_xchacha20poly1305_open_easy(m, in, il, n, kc->k); UNUSED_AD; if (ml) *ml = r == 0 ? il - 16 : 0; return r; }
 static int sbc_ed(unsigned char *c, unsigned char *t, const unsigned char *m, ull ml, const unsigned char *ad, ull al, const unsigned char *n, const keyctx *kc) { UNUSED_AD; return crypto_secretbox_xchacha20poly1305_detached(c, t, m, ml, n, kc->k); }
@@ -101,13 +101,13 @@ static int bx_nacl_e(unsigned char *c, unsigned char *t, const unsigned char *m,
   r = crypto_box(pc, pm, ml + 32, n, kc->pk, kc->sk); for (i = 0; i < 16; i++) if (pc[i]) z = 0; memcpy(t, pc + 16, 16); memcpy(c, pc + 32, ml); free(pm); free(pc); return r ? r : (z ? 0 : -78); }
 static int bx_nacl_d(unsigned char *m, const unsigned char *c, ull cl, const unsigned char *t, const unsigned char *ad, ull al, const unsigned char *n, const keyctx *kc)
 { unsigned char *pc = calloc(cl + 32, 1), *pm = malloc(cl + 32); int r, i, z = 1; UNUSED_AD; memcpy(pc + 16, t, 16); memcpy(pc + 32, c, cl); memset(pm, 0xEE, cl + 32);
-  r = crypto_box_open(pm, pc, cl + 32, n, kc->pk2, kc->sk2); if (r == 0) { for (i = 0; i < 32; i++) if (pm[i]) z = 0; memcpy(m, pm + 32, cl); } free(pm); free(pc); return r ? r : (z ? 0 : -78); }
+  r = crypto_box_open(pm, pc, cl + 32, n, kc->pk2, kc->sk2); if (r == 0) { for (i = 0; i < 32; i++) if (pm[i]) z = 0; } if (m) memcpy(m, pm + 32, cl);   /* also after a rejection: what the library left in its output buffer is part of the observation */ free(pm); free(pc); return r ? r : (z ? 0 : -78); }
 static int bx_nacl_an_e(unsigned char *c, unsigned char *t, const unsigned char *m, ull ml, const unsigned char *ad, ull al, const unsigned char *n, const keyctx *kc)
 { unsigned char k[32], *pm = calloc(ml + 32, 1), *pc = malloc(ml + 32); int r; UNUSED_AD; memcpy(pm + 32, m, ml); if (crypto_box_beforenm(k, kc->pk, kc->sk)) { free(pm); free(pc); return -70; }
   r = crypto_box_afternm(pc, pm, ml + 32, n, k); memcpy(t, pc + 16, 16); memcpy(c, pc + 32, ml); free(pm); free(pc); return r; }
 static int bx_nacl_an_d(unsigned char *m, const unsigned char *c, ull cl, const unsigned char *t, const unsigned char *ad, ull al, const unsigned char *n, const keyctx *kc)
-{ unsigned char k[32], *pc = calloc(cl + 32, 1), *pm = malloc(cl + 32); int r; UNUSED_AD; memcpy(pc + 16, t, 16); memcpy(pc + 32, c, cl); if (crypto_box_beforenm(k, kc->pk2, kc->sk2)) { free(pm); free(pc); return -70; }
-  r = crypto_box_open_afternm(pm, pc, cl + 32, n, k); if (r == 0) memcpy(m, pm + 32, cl); free(pm); free(pc); return r; }
+{ unsigned char k[32], *pc = calloc(cl + 32, 1), *pm = malloc(cl + 32); int r; UNUSED_AD; memcpy(pc + 16, t, 16); memcpy(pc + 32, c, cl); memset(pm, 0xEE, cl + 32); if (crypto_box_beforenm(k, kc->pk2, kc->sk2)) { free(pm); free(pc); return -70; }
+  r = crypto_box_open_afternm(pm, pc, cl + 32, n, k); if (m) memcpy(m, pm + 32, cl); free(pm); free(pc); return r; }
 /* ---- box (xchacha) ---- */
 #define BXC(f) crypto_box_curve25519xchacha20poly1305_##f
 static int bc_e(unsigned char *o, ull *ol, const unsigned char *m, ull ml, const unsigned char *ad, ull al, const unsigned char *n, const keyctx *kc) { UNUSED_AD; if (ol) *ol = ml + 16; return BXC(easy)(o, m, ml, n, kc->pk, kc->sk); }
